@@ -164,6 +164,8 @@ trait Elem:
 {
     const KIND: &'static str;
     const ZST: bool = false;
+    /// false for the tracked type without a destructor: its elements never die
+    const HAS_DROP: bool = true;
     /// an element handed to the buffer by the caller
     fn mk(id: u64, val: u64) -> Self;
     /// bits for an unoccupied slot: never registered, never dropped
@@ -185,27 +187,27 @@ trait Elem:
 
 // ---- E: identity + value, everything instrumented
 
-/// The tracked element type: identity + value, every trait instrumented.
-/// `P` words of padding make it as large as wanted: `E` = 16 bytes, `B` = 96 bytes.
+/// The tracked element types: identity + value, every trait instrumented.
+/// `P` words of padding make them as large as wanted. `EP` has a destructor
+/// (ownership is tracked through it); `NP` is the same without one, for code
+/// paths gated on `mem::needs_drop::<T>()`: its clones are still fresh,
+/// logged and can be made to panic.
 #[repr(C)]
 struct EP<const P: usize> {
     id: u64,
     val: u64,
     pad: [u64; P],
 }
-type E = EP<0>;
-type B = EP<10>;
-
-impl<const P: usize> EP<P> {
-    fn s(&self) -> String {
-        format!("{}:{}", self.id, self.val)
-    }
-    fn touch(&self, what: &str) {
-        if phase() == 0 && !is_live(self.id) {
-            bad(format!("{}-dead:{}", what, self.s()));
-        }
-    }
+#[repr(C)]
+struct NP<const P: usize> {
+    id: u64,
+    val: u64,
+    pad: [u64; P],
 }
+type E = EP<0>; // 16 bytes
+type B = EP<30>; // 256 bytes
+type NE = NP<0>;
+type NB = NP<30>;
 
 impl<const P: usize> Drop for EP<P> {
     fn drop(&mut self) {
@@ -221,6 +223,17 @@ impl<const P: usize> Drop for EP<P> {
         if ph == 0 {
             log(format!("D{}", self.s()));
             fault_check(K_DROP);
+        }
+    }
+}
+
+impl<const P: usize> EP<P> {
+    fn s(&self) -> String {
+        format!("{}:{}", self.id, self.val)
+    }
+    fn touch(&self, what: &str) {
+        if phase() == 0 && !is_live(self.id) {
+            bad(format!("{}-dead:{}", what, self.s()));
         }
     }
 }
@@ -302,73 +315,139 @@ impl<const P: usize> fmt::Debug for EP<P> {
     }
 }
 
-impl Elem for E {
-    const KIND: &'static str = "E";
-    fn mk(id: u64, val: u64) -> E {
-        live_insert(id);
-        EP { id, val, pad: [0; 0] }
+impl<const P: usize> NP<P> {
+    fn s(&self) -> String {
+        format!("{}:{}", self.id, self.val)
     }
-    fn raw(id: u64, val: u64) -> MaybeUninit<E> {
-        MaybeUninit::new(EP { id, val, pad: [0; 0] })
-    }
-    fn show(&self) -> String {
-        self.s()
-    }
-    fn id_of(&self) -> Option<u64> {
-        Some(self.id)
-    }
-    fn from_closure() -> E {
-        let _p = pause();
-        fault_check(K_CALL);
-        let n = EP { id: fresh_id(), val: 9, pad: [0; 0] };
-        live_insert(n.id);
-        log(format!("F{}", n.s()));
-        n
-    }
-    fn special<const N: usize>(
-        buf: &mut CircularBuffer<N, E>,
-        toks: &[&str],
-        bag: &mut Vec<E>,
-    ) -> Option<String> {
-        pair_ops(buf, toks, bag)
+    fn touch(&self, what: &str) {
+        if phase() == 0 && !is_live(self.id) {
+            bad(format!("{}-dead:{}", what, self.s()));
+        }
     }
 }
 
-// ---- u8
-
-impl Elem for B {
-    const KIND: &'static str = "B";
-    fn mk(id: u64, val: u64) -> B {
-        live_insert(id);
-        EP { id, val, pad: [0; 10] }
-    }
-    fn raw(id: u64, val: u64) -> MaybeUninit<B> {
-        MaybeUninit::new(EP { id, val, pad: [0; 10] })
-    }
-    fn show(&self) -> String {
-        self.s()
-    }
-    fn id_of(&self) -> Option<u64> {
-        Some(self.id)
-    }
-    fn from_closure() -> B {
+impl<const P: usize> Clone for NP<P> {
+    fn clone(&self) -> Self {
         let _p = pause();
-        fault_check(K_CALL);
-        let n = EP { id: fresh_id(), val: 9, pad: [0; 10] };
+        if phase() == 2 {
+            return NP { id: self.id, val: self.val, pad: [0; P] };
+        }
+        self.touch("clone");
+        fault_check(K_CLONE);
+        let n = NP { id: fresh_id(), val: self.val, pad: [0; P] };
         live_insert(n.id);
-        log(format!("F{}", n.s()));
+        log(format!("C{}>{}", self.s(), n.s()));
         n
-    }
-    fn special<const N: usize>(
-        _buf: &mut CircularBuffer<N, B>,
-        _toks: &[&str],
-        _bag: &mut Vec<B>,
-    ) -> Option<String> {
-        None
     }
 }
 
-// ---- u8
+impl<const P: usize> PartialEq for NP<P> {
+    fn eq(&self, o: &Self) -> bool {
+        let _p = pause();
+        if phase() == 0 {
+            self.touch("eq");
+            log(format!("Q{}={}", self.s(), o.s()));
+            fault_check(K_EQ);
+        }
+        // the value 13 is NaN-like: equal to nothing, itself included
+        self.val == o.val && self.val != NAN_VAL
+    }
+}
+impl<const P: usize> Eq for NP<P> {}
+impl<const P: usize> PartialOrd for NP<P> {
+    fn partial_cmp(&self, o: &Self) -> Option<std::cmp::Ordering> {
+        let _p = pause();
+        if phase() == 0 {
+            self.touch("cmp");
+            log(format!("M{}?{}", self.s(), o.s()));
+            fault_check(K_CMP);
+        }
+        // ... and unordered against everything under partial_cmp (Ord::cmp stays total)
+        if self.val == NAN_VAL || o.val == NAN_VAL {
+            return None;
+        }
+        Some(self.val.cmp(&o.val))
+    }
+}
+impl<const P: usize> Ord for NP<P> {
+    fn cmp(&self, o: &Self) -> std::cmp::Ordering {
+        let _p = pause();
+        if phase() == 0 {
+            self.touch("cmp");
+            log(format!("M{}?{}", self.s(), o.s()));
+            fault_check(K_CMP);
+        }
+        self.val.cmp(&o.val)
+    }
+}
+impl<const P: usize> Hash for NP<P> {
+    fn hash<H: Hasher>(&self, h: &mut H) {
+        let _p = pause();
+        if phase() == 0 {
+            self.touch("hash");
+            log(format!("H{}", self.s()));
+            fault_check(K_HASH);
+        }
+        h.write_u64(self.val);
+    }
+}
+impl<const P: usize> fmt::Debug for NP<P> {
+    fn fmt(&self, f: &mut fmt::Formatter<'_>) -> fmt::Result {
+        let _p = pause();
+        if phase() == 0 {
+            self.touch("fmt");
+            log(format!("T{}", self.s()));
+            fault_check(K_FMT);
+        }
+        fmt::Debug::fmt(&self.val, f)
+    }
+}
+
+
+macro_rules! tracked_elem {
+    ($name:ident, $kind:literal, $has_drop:literal) => {
+        impl<const P: usize> Elem for $name<P> {
+            const KIND: &'static str = $kind;
+            const HAS_DROP: bool = $has_drop;
+            fn mk(id: u64, val: u64) -> Self {
+                live_insert(id);
+                $name { id, val, pad: [0; P] }
+            }
+            fn raw(id: u64, val: u64) -> MaybeUninit<Self> {
+                MaybeUninit::new($name { id, val, pad: [0; P] })
+            }
+            fn show(&self) -> String {
+                self.s()
+            }
+            fn id_of(&self) -> Option<u64> {
+                Some(self.id)
+            }
+            fn from_closure() -> Self {
+                let _p = pause();
+                fault_check(K_CALL);
+                let n = $name { id: fresh_id(), val: 9, pad: [0; P] };
+                live_insert(n.id);
+                log(format!("F{}", n.s()));
+                n
+            }
+            fn special<const N: usize>(
+                buf: &mut CircularBuffer<N, Self>,
+                toks: &[&str],
+                bag: &mut Vec<Self>,
+            ) -> Option<String> {
+                // operations with a second const parameter are wired for the 16-byte tracked type only
+                let b: &mut dyn std::any::Any = buf;
+                if let Some(b) = b.downcast_mut::<CircularBuffer<N, E>>() {
+                    let g: &mut dyn std::any::Any = bag;
+                    return pair_ops(b, toks, g.downcast_mut::<Vec<E>>().unwrap());
+                }
+                None
+            }
+        }
+    };
+}
+tracked_elem!(EP, "E", true);
+tracked_elem!(NP, "N", false);
 
 impl Elem for u8 {
     const KIND: &'static str = "u8";
@@ -1668,6 +1747,9 @@ fn run_case<const N: usize, T: Elem>(hdr: &CaseHdr, ops: &[String], out: &mut dy
     drop(buf);
     set_phase(0);
     let mut live: Vec<u64> = LIVE.with(|l| l.borrow().iter().cloned().collect());
+    if !T::HAS_DROP {
+        live.clear(); // without a destructor nothing ever dies: no leak accounting for this type
+    }
     live.sort();
     let zl = ZLIVE.with(|z| z.get());
     let bads = BAD.with(|b| b.borrow().join(";"));
